@@ -92,6 +92,14 @@ def eval_call(I, st, node):
     f = node.func
     # ---- syntactic special forms -------------------------------------------------------
     if isinstance(f, ast.Name):
+        if st.spec_depth > 0 and f.id == "ifdef":
+            # ifdef('name', clause): the clause only applies to code shapes that have a local of that name
+            nm = node.args[0].value
+            try:
+                I.eval(st, ast.Name(id=nm, ctx=ast.Load()))
+            except Unsupported:
+                return Val("Bool", TRUE)
+            return I.eval(st, node.args[1])
         if st.spec_depth > 0 and f.id in ("old", "forall", "exists", "let", "at_suspend", "ENTRY"):
             return spec_special(I, st, f.id, node)
         if f.id == "cast" and len(node.args) == 2:
@@ -807,6 +815,14 @@ def apply_contract(I, st, c, fi, argmap, node):
     ordn = call_ordinal(I, st, node, fi.name)
     site = "%s.call[%s#%d]" % (I.short(st.frame.func) if st.frame.func else "<top>", short, ordn)
     env = dict(argmap)
+    # --- site assertions of the function under verification (sidecar `site_pre`) ---------
+    cc = I.current_contract
+    if cc is not None and cc.site_pre and st.frame.func is not None and st.frame.func.qualname == I.current_target:
+        from . import loops as _loops
+        for cl in cc.site_pre.get("%s#%d" % (fi.name, ordn), []):
+            g = specs.eval_clause(I, st, cl, _loops.spec_env(I, st, {}), st.frame.func)
+            st.oblige("%s.assert[%s]" % (site, cl.label), g, meta={"kind": "site_assert", "clause": cl.text, "props": cl.props,
+                                                                  "line": getattr(node, "lineno", None)})
     # --- preconditions -------------------------------------------------------------------
     for cl in c.requires:
         g = specs.eval_clause(I, st, cl, env, fi)
